@@ -1300,3 +1300,8 @@ def finish(ctx):
   ctx.need("resample:end_of_input_reached", 200)
   ctx.need("resample:input_shorter_than_lookahead", 30)
   ctx.need("resample:prefix_only", 20)
+
+
+# extension family (second round of seeded changes), see props/c19_x.py
+from props import c19_x as _x, ext as _ext
+_ext.install(globals(), _x)
